@@ -1077,7 +1077,7 @@ def check_c19(ctx):
                 name0 = sorted(per)[0]
                 b0 = bins[name0][1]
                 dst = os.path.join(found_dir("C19"), "trace-differs-%s.ops" % h)
-                subprocess.run([b0, "hist", "--prop", "C19", "--world", world, "--cases", str(cases), "--len", str(maxlen), "--seed", str(seed), "--dump-hash", h, "--dump-out", dst],
+                subprocess.run([b0, "hist", "--prop", "C19", "--world", world, "--cases", str(cases), "--len", str(maxlen), "--seed", str(seed), "--dump-hash", h, "--dump-out", dst, "--fail-out", os.devnull],
                                cwd=VERIF, stdout=subprocess.DEVNULL, stderr=subprocess.DEVNULL)
                 groups = {}
                 for n, t in per.items():
